@@ -1,6 +1,7 @@
 """C13 -- Buffer layer, plus long-lived match-mappings probed through the library's own lookup paths."""
 import p_buffer_common as bc
 from core import mk, bits_of, L, R, rng_for, randbits, impl_outcome, raw, Driver
+from core import mkmap, given_items
 
 RULE = ('cases enumerate (operation x padding side of every operand x bit length residue mod 8 x content class) '
         'with all-ones, alternating and random contents, plus random long operands; a case is distinct by '
@@ -39,7 +40,7 @@ def mapping_programs(rep, rnd, tier):
         keys = [mk(v, rnd.choice([L, R])) for v in vals]
         idxw = max(1, (k - 1).bit_length())
         idx = [format(i, '0%db' % idxw) for i in range(k)]
-        mapping = MatchMapping({kb: mk(ix, rnd.choice([L, R])) for kb, ix in zip(keys, idx)})
+        mapping = mkmap({kb: mk(ix, rnd.choice([L, R])) for kb, ix in zip(keys, idx)})
         probes = []
         for v in vals:
             w = same_bytes_other_side(v)
